@@ -51,7 +51,7 @@ def cmd_replay(path):
 
 
 def _save_replay(mod, fl):
-    d = os.path.join(compat.VERIF, "replays", mod.ID)
+    d = os.path.join(compat.OUT, "replays", mod.ID)
     os.makedirs(d, exist_ok=True)
     body = dict(property=mod.ID, kind=fl.get("kind", "case"), signature=fl["signature"], case=fl["case"],
                 observed=fl["observed"], expected=fl["expected"])
@@ -60,7 +60,7 @@ def _save_replay(mod, fl):
     if not os.path.exists(path):
         with open(path, "w") as f:
             json.dump(body, f, indent=1, default=repr)
-    return os.path.relpath(path, compat.VERIF)
+    return os.path.relpath(path, compat.VERIF) if compat.OUT == compat.VERIF else path
 
 
 def cmd_check(pid, tier):
